@@ -480,11 +480,7 @@ func (f *c04File) Sys() any                   { return nil }
 
 func c04Register(e *echo.Echo, groups []*echo.Group, o c04Op, h echo.HandlerFunc, m []echo.MiddlewareFunc) {
 	type registrar interface {
-		Add(method, path string, handler echo.HandlerFunc, middleware ...echo.MiddlewareFunc) *echo.Route
-		GET(path string, h echo.HandlerFunc, m ...echo.MiddlewareFunc) *echo.Route
-		POST(path string, h echo.HandlerFunc, m ...echo.MiddlewareFunc) *echo.Route
-		PUT(path string, h echo.HandlerFunc, m ...echo.MiddlewareFunc) *echo.Route
-		Match(methods []string, path string, handler echo.HandlerFunc, middleware ...echo.MiddlewareFunc) []*echo.Route
+		rRegistrar
 		FileFS(path, file string, filesystem fs.FS, m ...echo.MiddlewareFunc) *echo.Route
 	}
 	var r registrar = e
@@ -493,14 +489,7 @@ func c04Register(e *echo.Echo, groups []*echo.Group, o c04Op, h echo.HandlerFunc
 	}
 	switch o.Via {
 	case "verb":
-		switch o.Method {
-		case "GET":
-			r.GET(o.Path, h, m...)
-		case "POST":
-			r.POST(o.Path, h, m...)
-		case "PUT":
-			r.PUT(o.Path, h, m...)
-		default:
+		if !rAddVerb(r, o.Method, o.Path, h, m...) {
 			r.Add(o.Method, o.Path, h, m...)
 		}
 	case "match":
